@@ -9,6 +9,7 @@ import (
 	"github.com/libsv/go-bt/v2"
 
 	"verif/sim/kernel"
+	"verif/sim/models"
 )
 
 // C12: Fund (real) against a scripted supplier (stub) — the one retry loop in
@@ -35,11 +36,11 @@ func (*c12World) Info() kernel.WorldInfo {
 			"against a reference funding model. distinct = distinct (response-kind sequence, fault kind+position, outcome class, #calls) histories; " +
 			"a history is non-trivial when the supplier was called at least once.",
 		Assumptions: []string{
-			"'estimated fee' = floor(std bytes x std rate) + floor(data bytes x data rate) over the library's own size estimate (EstimateSizeWithTypes on the model's copy); the size estimate itself is C11's subject",
+			"'estimated fee' = floor(std bytes x std rate) + floor(data bytes x data rate), where the size is computed by the reference codec with a 107-byte unlocking script for every not-yet-signed P2PKH input (the documented estimate) and data bytes are the scripts of OP_RETURN / OP_FALSE OP_RETURN outputs",
 			"fee quotes have positive byte denominators (as the property states)",
 			"nothing is asserted about the transaction's inputs on error paths (the statement only constrains outputs there)",
 		},
-		Real:        []string{"bt.Tx.Fund", "bt.Tx.FromUTXOs", "bt.Tx.estimateDeficit", "bt.Tx.EstimateFeesPaid and everything under it", "bt.FeeQuote"},
+		Real:        []string{"bt.Tx.Fund", "bt.Tx.FromUTXOs", "bt.Tx.estimateDeficit", "bt.Tx.EstimateFeesPaid / estimatedFinalTx / SizeWithTypes / feesPaid", "bt.FeeQuote"},
 		Stub:        []string{"UTXO supplier (UTXOGetterFunc) scripted by the tape", "context.Context (cancelled by the supplier stub at a chosen call)"},
 		SimTimeNote: "Fund reads no clock; simulated time is not applicable to this world.",
 	}
@@ -77,8 +78,10 @@ func (s *c12Scenario) build() (*bt.Tx, *bt.FeeQuote) {
 		switch s.priorForm[i] {
 		case 1:
 			in.UnlockingScript = scriptPtr(nil)
-		case 2:
-			us := append([]byte{0x48}, make([]byte, 72)...)
+		case 2, 3, 4:
+			// already signed: 107-, 106- and 105-byte unlocking scripts (72/71/70-byte signatures)
+			n := 74 - s.priorForm[i]
+			us := append([]byte{byte(n)}, make([]byte, n)...)
 			us = append(append(us, 0x21), make([]byte, 33)...)
 			in.UnlockingScript = scriptPtr(us)
 		}
@@ -144,7 +147,7 @@ func genC12(c *kernel.RunCtx) *c12Scenario {
 			v %= 50
 		}
 		s.priorVals = append(s.priorVals, v)
-		s.priorForm = append(s.priorForm, c.Pick(4, 2, 2))
+		s.priorForm = append(s.priorForm, c.Pick(4, 2, 2, 2, 1))
 		c.End()
 	}
 	s.transit = c.Bool(1, 5)
@@ -212,14 +215,36 @@ type c12Supplier struct {
 
 // modelDeficit is the reference definition: max(0, outputs + estimated fee - inputs).
 func (p *c12Supplier) modelDeficit() (uint64, error) {
-	// the estimate is the library's size estimate (107-byte dummy unlocking scripts for unsigned inputs),
-	// priced with the quote by exact integer arithmetic: floor(std bytes x rate) + floor(data bytes x rate)
-	sz, err := p.model.Clone().EstimateSizeWithTypes()
-	if err != nil {
-		return 0, err
+	// Independent estimate: the size the transaction will have once every not-yet-signed P2PKH input carries a
+	// 107-byte unlocking script (the documented estimate), computed with the reference codec; data bytes are the
+	// scripts of outputs starting OP_RETURN or OP_FALSE OP_RETURN; fee = floor(std bytes x rate) + floor(data x rate).
+	ref := &models.RTx{Version: p.model.Version, Lock: p.model.LockTime}
+	for i, in := range p.model.Inputs {
+		ps := scriptBytes(in.PreviousTxScript)
+		if in.PreviousTxScript == nil {
+			return 0, fmt.Errorf("input %d has no previous script: estimate undefined", i)
+		}
+		if !(len(ps) == 25 && ps[0] == 0x76 && ps[1] == 0xa9 && ps[2] == 0x14 && ps[23] == 0x88 && ps[24] == 0xac) {
+			return 0, fmt.Errorf("input %d spends a non-P2PKH script: estimate undefined", i)
+		}
+		us := scriptBytes(in.UnlockingScript)
+		if len(us) == 0 {
+			us = make([]byte, 107)
+		}
+		ref.Ins = append(ref.Ins, models.RIn{Script: us})
 	}
+	var data uint64
+	for _, o := range p.model.Outputs {
+		sc := scriptBytes(o.LockingScript)
+		ref.Outs = append(ref.Outs, models.ROut{Script: sc})
+		if (len(sc) > 0 && sc[0] == 0x6a) || (len(sc) > 1 && sc[0] == 0x00 && sc[1] == 0x6a) {
+			data += uint64(len(sc))
+		}
+	}
+	enc, _ := ref.Encode(false, nil)
+	total := uint64(len(enc))
 	s := p.s
-	fees := struct{ TotalFeePaid uint64 }{sz.TotalStdBytes*uint64(s.stdSat)/uint64(s.stdBytes) + sz.TotalDataBytes*uint64(s.dataSat)/uint64(s.dataBytes)}
+	fees := struct{ TotalFeePaid uint64 }{(total-data)*uint64(s.stdSat)/uint64(s.stdBytes) + data*uint64(s.dataSat)/uint64(s.dataBytes)}
 	var in, out uint64
 	for _, i := range p.model.Inputs {
 		in += i.PreviousTxSatoshis
